@@ -537,7 +537,8 @@ pub fn read_hmtx(data: &[u8]) -> Result<Vec<(u16, i16)>, String> {
 
 /// Points of a glyph in font units with composites resolved one level or more deep
 /// (offsets added, anchor points matched, 2.14 transforms applied as x' = a·x + c·y,
-/// y' = b·x + d·y for the file order a b c d). None if a reference is out of range or nesting
+/// y' = b·x + d·y for the file order a b c d; SCALED_COMPONENT_OFFSET multiplies the offset by
+/// the diagonal of the transform). None if a reference is out of range or nesting
 /// exceeds 8.
 pub fn composed_points(glyphs: &[OutGlyph], gid: usize, depth: usize) -> Option<Vec<(f64, f64)>> {
     composed_points_model(glyphs, gid, depth, false)
@@ -564,7 +565,12 @@ pub fn composed_points_model(glyphs: &[OutGlyph], gid: usize, depth: usize, anch
                     _ => (1.0, 0.0, 0.0, 1.0),
                 };
                 let tr: Vec<(f64, f64)> = child.iter().map(|p| (a * p.0 + cc * p.1, b * p.0 + d * p.1)).collect();
-                let (ox, oy) = if c.xy || anchors_as_offsets {
+                let (ox, oy) = if c.xy && !c.transform.is_empty() && c.flags & 0x1800 == 0x0800 {
+                    // SCALED_COMPONENT_OFFSET: the offset is in the component's (scaled) coordinate
+                    // system. Callers only rely on this for positive diagonal scales, where every
+                    // reading of the flag gives (xscale * dx, yscale * dy).
+                    (a * c.arg1 as f64, d * c.arg2 as f64)
+                } else if c.xy || anchors_as_offsets {
                     (c.arg1 as f64, c.arg2 as f64)
                 } else {
                     let pp = acc.get(c.arg1 as usize)?;
